@@ -44,6 +44,7 @@ struct Params {
   uint32_t p_switch_x1000 = 200;   // RANDOM: probability to switch at a point
   uint32_t p_stale_x1000 = 0;      // weak mode when > 0
   uint32_t p_spurious_x1000 = 0;   // weak CAS spurious failure
+  uint32_t p_eintr_x1000 = 0;      // futex_wait that would sleep returns early instead: EINTR, or 0 without a wake (futex(2): both may happen)
   uint64_t max_steps = 300000;
   int64_t clock_base_ns = 1000000000000LL;  // value of every clock at start
   bool livelock_is_violation = true;
